@@ -84,6 +84,10 @@ pub struct Case {
     pub plus: Vec<bool>,
     /// (connective 0 as,1 to,2 in,3 into; target unit 0..=4; spelling)
     pub conv: Option<(u8, u8, u8)>,
+    /// also evaluate the line with its first part held in a variable bound on an earlier line (`x = 90 seconds` /
+    /// `x 45 seconds as minutes`): a duration is a duration, however it got there
+    #[serde(default)]
+    pub via_var: bool,
 }
 
 pub const CONV_WORDS: [&str; 4] = ["as", "to", "in", "into"];
@@ -206,6 +210,38 @@ impl Prop for Durations {
             }
             other => acc.fail(format!("expected Duration({} s) got {}", exp, other.brief())),
         }
+        // metamorphic: the first part held in a variable gives exactly the same result
+        let mut via_checked = false;
+        if acc.ok() && c.via_var && c.lang == "en" {
+            if let Some(first) = c.groups.first().and_then(|g| g.first()) {
+                let mut def = Line::default();
+                def.push(Tok::word("x", Class::Var));
+                def.push(Tok::op('='));
+                for t in first.toks(&c.lang) {
+                    def.push(t);
+                }
+                let mut l = case_line(c);
+                // the first part is `count word`: two tokens
+                if l.toks.len() >= 2 {
+                    l.toks.drain(0..2);
+                    l.toks.insert(0, Tok::word("x", Class::Var).sp(0));
+                    if l.toks.len() > 1 && l.toks[1].space == 0 {
+                        l.toks[1].space = 1;
+                    }
+                    let text = format!("{}\n{}", def.render(",", "."), l.render(",", "."));
+                    match w.eval(&cfg, &c.lang, &text) {
+                        Ok(o) if o.slots.len() == 2 => {
+                            via_checked = true;
+                            if !o.slots[1].same(&slot) {
+                                acc.fail(format!("{:?} gives {} but with its first part held in a variable ({:?}) it gives {}", line, slot.brief(), text, o.slots[1].brief()));
+                            }
+                        }
+                        Ok(o) => acc.fail(format!("{} slots for two lines", o.slots.len())),
+                        Err(p) => acc.fail(format!("panic at {}: {}", p.site, p.message)),
+                    }
+                }
+            }
+        }
         let n_parts: usize = c.groups.iter().map(|g| g.len()).sum();
         let units: std::collections::BTreeSet<u8> = c.groups.iter().flatten().map(|p| p.unit).collect();
         let carry = c.groups.iter().flatten().any(|p| matches!((p.unit, p.count), (0, 59..=61) | (1, 59..=61) | (2, 23..=25) | (3, 6..=8) | (3, 29..=31) | (3, 364..=366) | (4, 4..=5) | (4, 52..=53) | (5, 11..=13) | (5, 24..=25)));
@@ -225,6 +261,7 @@ impl Prop for Durations {
             .class_if(c.groups.iter().any(|g| g.len() >= 2), "juxtaposed-parts")
             .class_if(n_parts >= 5, "five-or-more-parts")
             .class_if(exp == 0, "zero-duration")
+            .class_if(via_checked, "first-part-also-via-a-variable")
     }
 }
 
@@ -238,6 +275,13 @@ pub fn part_strategy() -> impl Strategy<Value = Part> {
 }
 
 pub fn case_strategy() -> impl Strategy<Value = Case> {
+    (case_strategy_literal(), prop::bool::weighted(0.3)).prop_map(|(mut c, v)| {
+        c.via_var = v;
+        c
+    })
+}
+
+fn case_strategy_literal() -> impl Strategy<Value = Case> {
     let group = prop_oneof![3 => prop::collection::vec(part_strategy(), 1..=4), 1 => prop::collection::vec(part_strategy(), 5..=7)];
     (prop_oneof![2 => Just("en".to_string()), 1 => Just("tr".to_string())], prop::collection::vec(group, 1..=3), prop::collection::vec(prop::bool::weighted(0.6), 2), prop::option::weighted(0.3, (0u8..4, 0u8..5, 0u8..2))).prop_map(|(lang, mut groups, plus, conv)| {
         // at most seven parts in total
@@ -259,7 +303,7 @@ pub fn case_strategy() -> impl Strategy<Value = Case> {
             groups.truncate(1);
         }
         let plus = plus.into_iter().take(groups.len().saturating_sub(1)).collect();
-        Case { lang, groups, plus, conv }
+        Case { lang, groups, plus, conv, via_var: false }
     })
 }
 
@@ -271,10 +315,10 @@ pub fn table() -> Vec<Case> {
             for sp in 0..spellings(lang, unit).len() as u8 {
                 for count in counts {
                     let part = Part { count, unit, spelling: sp, group: false };
-                    out.push(Case { lang: lang.into(), groups: vec![vec![part.clone()]], plus: vec![], conv: None });
+                    out.push(Case { lang: lang.into(), groups: vec![vec![part.clone()]], plus: vec![], conv: None, via_var: false });
                     if lang == "en" {
                         for target in 0..5u8 {
-                            out.push(Case { lang: lang.into(), groups: vec![vec![part.clone()]], plus: vec![], conv: Some(((count % 4) as u8, target, (count % 2) as u8)) });
+                            out.push(Case { lang: lang.into(), groups: vec![vec![part.clone()]], plus: vec![], conv: Some(((count % 4) as u8, target, (count % 2) as u8)), via_var: count % 3 == 0 });
                         }
                     }
                 }
